@@ -121,6 +121,11 @@ def gen_c15(rng, n, thorough=False):
         steps.append(req(1, req_read(3, 0, 1), 1))
         steps.append({"op": "shutdown"})
         scs.append(scenario(len(scs), steps, max_sessions=maxs, tag=f"c15-burst-close{nclose}"))
+        # the same on a current-thread runtime: all the sessions that see their peer go away in one turn of the reactor run
+        # before the server task does, so their close notifications really arrive as one burst
+        sc1 = scenario(len(scs), [dict(x) for x in steps], max_sessions=maxs, tag=f"c15-burst-close{nclose}-current-thread")
+        sc1["rt"] = "current"
+        scs.append(sc1)
     # a peer that never reads its replies blocks its own session in the write; a burst of decode-level changes,
     # requests on other connections, new connections and the shutdown must still be served
     for burst in ((0, 3, 9, 12, 20) if thorough else (3, 12)):
@@ -469,6 +474,23 @@ def gen_c20_server(rng, thorough=False):
             steps.append(req(0, req_read(3, 3, 1), 1))
             steps.append({"op": "shutdown"})
             scs.append(scenario(len(scs), steps, max_sessions=3, tag=f"c20-server-burst{burst}"))
+    return scs
+
+
+def gen_c08_tls(rng):
+    """authorization on a real TLS server: the role comes from the client certificate; a trusted certificate WITHOUT a role
+    is not served at all (it must not end up in a session that runs without authorization), a certificate with a role has
+    every request submitted to the handler under that role, and denied writes are not executed (read-back)"""
+    scs = []
+    v = ["1.2", "1.3"]
+    for policy in ("hash", "deny"):
+        steps = [conn(0, tls={"cert": "client_norole", "versions": v}), conn(1, tls={"cert": "client_viewer", "versions": v})]
+        for k in range(6):
+            w = req_wsr(k, 1000 + k)
+            steps += [req(1, w, 1), req(1, req_read(3, k, 1), 1)]
+        steps += [conn(2, tls={"cert": "client_norole", "versions": ["1.3"]}), conn(3, tls={"cert": "client_operator", "versions": v}),
+                  req(3, req_wmc(2, [True, True, False]), 2), req(3, req_read(1, 2, 3), 2), close(3), close(1)]
+        scs.append(scenario(len(scs), steps, variant="tls_authz", max_sessions=4, auth=policy, tag=f"c08-tls-roles-{policy}"))
     return scs
 
 
